@@ -1174,6 +1174,21 @@ def _vec_push(eng, st, fr, t, args, dest, target):
     return UNIT
 
 
+@model('std::vec::Vec::<T, A>::pop')
+def _vec_pop(eng, st, fr, t, args, dest, target):
+    r, p = ptr_of(eng, st, args[0])
+    v = eng.force(st, eng.load(st, r, p))
+    if v[0] == 'vec':
+        if not v[1]:
+            return NONE
+        eng.store(st, r, p, ('vec', v[1][:-1]))
+        return SOME(v[1][-1])
+    pv = eng.purify(st, v)
+    # an unknown vector: empty (nothing changes) or its last element taken off
+    eng.store(st, r, p, ite(('app', 'vec_is_empty', (pv,)), v, ('app', 'vec_init', (pv,))))
+    return ite(('app', 'vec_is_empty', (pv,)), NONE, SOME(('app', 'vec_last', (pv,))))
+
+
 @model('std::vec::Vec::<T, A>::insert')
 def _vec_insert(eng, st, fr, t, args, dest, target):
     r, p = ptr_of(eng, st, args[0])
